@@ -30,6 +30,7 @@ ASSUMPTIONS = ["cid arguments are always real digests (the statement is about pi
 SHAPE = re.compile(r"^(hashstore\.yaml|(objects|metadata|refs/pids|refs/cids)(/[0-9a-f]+)+)$")
 SPEC = {"X": {"cseed": 181, "size": 300}, "Y": {"cseed": 182, "size": 9000}}
 DOCS = {"d1": {"cseed": 183, "size": 20}, "d2": {"cseed": 184, "size": 8200}}
+TMPALPHA = re.compile(r"^[a-z0-9_]+$")
 CREATING = {"create", "wopen", "mkdir", "rename", "link"}
 
 
@@ -163,7 +164,9 @@ def run_shard(n, sub_seed):
                             bad = True
                         base = os.path.basename(target)
                         for ident in ids + [f for f in fmts if f]:
-                            if len(ident) >= 4 and ident in base:
+                            # tempfile draws 8 characters from [a-z0-9_]; only identifier text that could not
+                            # be such a draw by chance is taken as evidence of embedding
+                            if ident in base and (len(ident) >= 8 or (len(ident) >= 4 and not TMPALPHA.match(ident))):
                                 res.violation({"symptom": "file-name-embeds-identifier-text", "call": op_shape(op)},
                                               dict(wit, operation=o.describe(root)))
                                 bad = True
